@@ -34,10 +34,10 @@ import (
 var c20Denoms = []string{"umin", "ufee", "ujunk"}
 
 type c20Node struct {
-	n       *node.L2
-	db      *dbm.MemDB
-	prices  map[string]*big.Rat // node-local min gas prices
-	mem     []c20Tx
+	n        *node.L2
+	db       *dbm.MemDB
+	prices   map[string]*big.Rat // node-local min gas prices
+	mem      []c20Tx
 	checkSeq uint64 // next L1 sequence in this node's check state
 }
 
@@ -469,6 +469,10 @@ func (c *c20World) genParamsTx() (sdk.Msg, string) {
 	np.FeeWhitelist = nil
 	for i := 0; i < r.Intn(3); i++ {
 		np.FeeWhitelist = append(np.FeeWhitelist, w.pickUser())
+	}
+	if r.Chance(1, 8) {
+		// a blank entry (a trailing comma in somebody's tooling): not an address, the update must be refused
+		np.FeeWhitelist = append(np.FeeWhitelist, []string{"", " "}[r.Intn(2)])
 	}
 	return &opchildtypes.MsgUpdateParams{Authority: w.m.Authority, Params: &np}, fmt.Sprintf("min-gas-prices=%s whitelist=%d", dcs, len(np.FeeWhitelist))
 }
